@@ -17,7 +17,8 @@ RULE = ("cases: (a) every cap kind (9 file kinds x file/directory wrapper) with 
         "NodeMaker's; (e) children (known caps of every kind and unknown caps with none/ro./imm./doubled prefixes in "
         "either slot) attached through NodeMaker to SSK, MDMF and deep-immutable directories, serialized by the real "
         "dirnode pack code and read back by _unpack_contents through the write cap, the read cap and after a rewrite, "
-        "with a NodeMaker whose access.blacklist lists about half of the children (ProhibitedNode wrappers); every node "
+        "with a NodeMaker whose access.blacklist lists about half of the children (ProhibitedNode wrappers); the same children linked with {no-write: true} "
+        "through Adder and MetadataSetter (no write cap may remain in the stored entry); every node "
         "class, bare and wrapped, is asked for get_uri/get_write_uri/get_readonly_uri/get_readcap.  "
         "distinct non-trivial "
         "= distinct (cap, operation) or (string, prefix, context) that reach a known kind's parser or a non-opaque node")
@@ -614,6 +615,69 @@ def node_accessors(ctx):
                     accessor_oracle(ctx, node, case)
 
 
+def no_write_links(ctx, which, dn_w, children, meta, packed, terms, info):
+    """Children linked with metadata {"no-write": true} -- through Adder (set_node / set_uri /
+    set_children) and through MetadataSetter (set_metadata_for): the directory layer attenuates
+    the child (DirectoryNode._create_readonly_node), so neither the node handed back nor the
+    stored entry (read through the directory's WRITE cap) may carry a write cap, whatever the
+    child is -- known, blacklisted, or an unknown-format (write cap, read cap) pair."""
+    from allmydata.dirnode import Adder, MetadataSetter
+    from allmydata.unknown import UnknownNode
+    from allmydata.interfaces import CapConstraintError
+    results = []
+    linkable = {}
+    for name, (node, md) in children.items():
+        try:
+            dn_w._create_readonly_node(node, name)
+            linkable[name] = (node, md)
+        except CapConstraintError:
+            ctx.case(None, kind="no-write:link-refused")      # e.g. ro.x-tahoe-future-test-writeable: the link is refused outright
+    try:
+        a = Adder(dn_w, overwrite=True, create_readonly_node=dn_w._create_readonly_node)
+        for name, (node, _) in linkable.items():
+            a.set_node(name, node, {"no-write": True})
+        results.append(("Adder(no-write)", dn_w._unpack_contents(a.modify(b"", None, True))))
+        p2 = packed
+        for name in linkable:
+            if name in dn_w._unpack_contents(p2):
+                p2 = MetadataSetter(dn_w, name, {"no-write": True}, create_readonly_node=dn_w._create_readonly_node).modify(p2, None, True)
+        results.append(("MetadataSetter(no-write)", dn_w._unpack_contents(p2)))
+    except Exception as e:
+        ctx.oracle_fail("no-write-link-raises:" + type(e).__name__, "linking children with no-write raises %s" % type(e).__name__, case={"directory": which})
+        return
+    children = linkable
+    for via, got in results:
+        for name, (before, _) in children.items():
+            label, rw, ro = meta[name]
+            b_ro = before.get_readonly_uri()
+            case = {"directory": which, "via": via, "child": label, "no_write": True, "blacklisted": type(before).__name__ == "ProhibitedNode",
+                    "rw_hex": None if rw is None else rw.hex(), "ro_hex": None if ro is None else ro.hex(),
+                    "attached_as": [type(before).__name__, None if before.get_write_uri() is None else U.show(before.get_write_uri()), None if b_ro is None else U.show(b_ro)]}
+            after = got[name][0] if name in got else None
+            ctx.case((which, via, label, rw, ro) if after is not None else None,
+                     kind="no-write:%s:%s" % (via.split("(")[0], "unknown" if isinstance(before, UnknownNode) else "known"))
+            if after is None:
+                if via.startswith("Adder"):
+                    terms.append("opt_eqb made_eqb (dir_store_read (create_readonly_node %s) false true) None" % made_term(before))
+                    info.append(case)
+                continue
+            a_rw, a_ro = after.get_write_uri(), after.get_readonly_uri()
+            case["read_back_as"] = [type(after).__name__, None if a_rw is None else U.show(a_rw), None if a_ro is None else U.show(a_ro)]
+            if got[name][1].get("no-write") is not True and via.startswith("Adder"):
+                ctx.oracle_fail("no-write-metadata-lost", "%s, %s: the no-write flag of child %s is not stored" % (which, via, label), case=case)
+            if a_rw:
+                ctx.oracle_fail("no-write-link-keeps-write-cap",
+                                "%s directory, %s: child %s was linked with no-write but its stored entry still holds the write cap %s" % (which, via, label, U.show(a_rw)),
+                                case=case, expected="no write cap", observed=U.show(a_rw))
+            if not isinstance(after, UnknownNode) and not after.is_readonly():
+                ctx.oracle_fail("no-write-link-keeps-write-cap", "%s directory, %s: child %s linked with no-write reads back as a writeable %s" % (which, via, label, type(after).__name__), case=case)
+            if isinstance(before, UnknownNode) and isinstance(after, UnknownNode) and strength(a_ro) < strength(b_ro):
+                ctx.oracle_fail("directory-roundtrip-weakens-allegation", "%s, %s: child %s went in as %s and came back as %s" % (which, via, label, U.show(b_ro), U.show(a_ro)), case=case)
+            if via.startswith("Adder"):
+                terms.append("opt_eqb made_eqb (dir_store_read (create_readonly_node %s) false true) (Some %s)" % (made_term(before), made_term(after)))
+                info.append(case)
+
+
 def dir_roundtrip(ctx):
     """Children attached to a directory, the directory serialized by the real
     dirnode pack code and read back by _unpack_contents -- through the write cap and
@@ -625,7 +689,9 @@ def dir_roundtrip(ctx):
     from allmydata.unknown import UnknownNode
     u = U.uri_mod()
     ctx.correspondence("directory-store-read-vs-model")
+    ctx.correspondence("no-write-link-vs-model")
     terms, info = [], []
+    nw_terms, nw_info = [], []
     n = ctx.n(4, 45)
     for i in range(n):
         r = ctx.rng("dirrt", i)
@@ -671,6 +737,8 @@ def dir_roundtrip(ctx):
             ctx.oracle_fail("directory-pack-raises:" + type(e).__name__, "packing attachable children raises %s" % type(e).__name__,
                             case={"directory": which, "children": [[m[0], None if m[1] is None else m[1].hex(), None if m[2] is None else m[2].hex()] for m in meta.values()]})
             continue
+        if not di:
+            no_write_links(ctx, which, views[0][1], children, meta, packed, nw_terms, nw_info)
         generations = []
         for where, dn, writeable in views:
             got = dn._unpack_contents(packed)
@@ -730,6 +798,11 @@ def dir_roundtrip(ctx):
                     info.append(case)
         if i < 2:
             ctx.sample({"directory": which, "children_stored": len(children), "views": [g[0] for g in generations]})
+    bad = ctx.coq_check(IMPORTS, nw_terms, tag="c16nowrite", shard=60)
+    for ix in bad:
+        ctx.mismatch("model-vs-impl:no-write-link", "Model create_readonly_node/dir_store_read and a no-write link differ on child %s (%s)" % (nw_info[ix]["child"], nw_info[ix]["via"]),
+                     case=nw_info[ix], correspondence="no-write-link-vs-model")
+    ctx.trace(len(nw_terms) - len(bad))
     bad = ctx.coq_check(IMPORTS, terms, tag="c16dir", shard=60)
     for ix in bad:
         ctx.mismatch("model-vs-impl:directory-store-read", "Model dir_store_read and dirnode pack/_unpack_contents differ on child %s (%s)" % (info[ix]["child"], info[ix]["view"]),
@@ -745,6 +818,32 @@ def run(ctx):
     histories(ctx)
     node_accessors(ctx)
     dir_roundtrip(ctx)
+
+
+def replay_no_write(ctx, case):
+    from allmydata.dirnode import Adder, MetadataSetter
+    u = U.uri_mod()
+    rw = None if case["rw_hex"] is None else bytes.fromhex(case["rw_hex"])
+    ro = None if case["ro_hex"] is None else bytes.fromhex(case["ro_hex"])
+    c0 = u.from_string(rw or ro)
+    si = c0.get_storage_index() if not isinstance(c0, u.UnknownURI) else None
+    nm = nodemaker_with_blacklist([si] if (case.get("blacklisted") and si) else [])
+    W, D = (u.WriteableMDMFFileURI, u.MDMFDirectoryURI) if case["directory"] == "MDMF" else (u.WriteableSSKFileURI, u.DirectoryURI)
+    dn = nm.create_from_cap(D(W(b"k" * 16, b"f" * 32)).to_string())
+    node = nm.create_from_cap(rw, ro)
+    if case["via"].startswith("Adder"):
+        a = Adder(dn, overwrite=True, create_readonly_node=dn._create_readonly_node)
+        a.set_node(u"child", node, {"no-write": True})
+        packed = a.modify(b"", None, True)
+    else:
+        packed = dn._pack_contents({u"child": (node, {})})
+        packed = MetadataSetter(dn, u"child", {"no-write": True}, create_readonly_node=dn._create_readonly_node).modify(packed, None, True)
+    got = dn._unpack_contents(packed)
+    after = got[u"child"][0] if u"child" in got else None
+    if after is not None and after.get_write_uri():
+        ctx.oracle_fail("no-write-link-keeps-write-cap", "the no-write link still stores the write cap %s" % U.show(after.get_write_uri()), case=case)
+    return {"attached": [type(node).__name__, node.get_write_uri(), node.get_readonly_uri()],
+            "stored_and_read_back_via_write_cap": None if after is None else [type(after).__name__, after.get_write_uri(), after.get_readonly_uri()]}
 
 
 def replay_dir_child(ctx, case):
@@ -817,6 +916,8 @@ def replay(ctx, rec):
         node = nm.create_from_cap(rw, ro)
         accessor_oracle(ctx, node, case)
         out = {"node": type(node).__name__, "get_uri": node.get_uri(), "get_write_uri": node.get_write_uri(), "get_readonly_uri": node.get_readonly_uri()}
+    elif case.get("no_write"):
+        out = replay_no_write(ctx, case)
     elif "directory" in case and "view" in case:
         out = replay_dir_child(ctx, case)
     elif "calls" in case:
